@@ -45,3 +45,24 @@ func (t *Tok) UnmarshalGQL(v any) error {
 	*t = Tok(s)
 	return nil
 }
+
+// Overlap is a hand-written model several schema fields of which share one Go field (the probe binds
+// `aAlias` to A and `bAlias` to B with models.<T>.fields.<f>.fieldName).
+type Overlap struct {
+	A *string `json:"a"`
+	B int     `json:"b"`
+}
+
+// FieldAliases: "Type.field" of the probe schemas -> the schema field whose Go field it shares.
+var FieldAliases = map[string]string{
+	"Overlap.aAlias": "a",
+	"Overlap.bAlias": "b",
+}
+
+// Canonical is the field whose value (and custom complexity function) `field` of `typ` shares.
+func Canonical(typ, field string) string {
+	if c, ok := FieldAliases[typ+"."+field]; ok {
+		return c
+	}
+	return field
+}
